@@ -22,6 +22,12 @@ checks = {
  "C08": dict(level="model_checking",
    text="Bounded model checking of pipe.New's pump goroutine with its linked queue in bounded arenas (symbolic slot indices): FIFO/exactly-once, nothing invented, sender never blocks while the context is live (receiver present or absent), completed sends survive cancel, sender-side close is a clean end of stream. Bounds: capacity 0..2, 1..2 sends (3 thorough).",
    technique="SSA-to-automata extraction + SMT-based bounded model checking with symbolic schedule and arena-allocated heap (z3)", ref="DESIGN.md §4, §5 C08", note=BMC_NOTE),
+ "C09": dict(level="model_checking",
+   text="Bounded model checking of fork.Map/FMap/Filter/Partition/ForEach/Void with par workers (the same closure started par times), the closer goroutine and the WaitGroup: which worker gets which element and the completion order are the symbolic schedule; inputs pairwise distinct by construction, stage results tagged, boolean ghosts. At every step: no panic (send on closed channel included), every application is of a not-yet-applied input, every received value/error is the image of a not-yet-received element; at quiescence: outputs closed and goroutines gone (after drain, after cancel, also when nobody receives), nothing lost, exactly-once application, received set = image (Try: one error per failing element). Bounds: par 1..2, n 0..2, cap 0..1; the Go memory model is not modelled (races show up only as wrong interleaving results; unsynchronised shared cells of the library become separate steps).",
+   technique="SSA-to-automata extraction + SMT-based bounded model checking with symbolic schedule (z3)", ref="DESIGN.md §4, §5 C09", note=BMC_NOTE),
+ "C10": dict(level="model_checking",
+   text="Bounded model checking of fork.Fold (workers, collector, WaitGroup) against the sequential left fold for commutative monoid families whose identity is a solver variable: a^b^e and a+b-e with symbolic e, and/all-ones, max/min; exactly one value, equal to the left fold from e, operation applied n+par times, channel closed, goroutines gone. Bounds: par 1..2 x n 0..3, par 3 x n 0; 8-bit elements (64-bit in two jobs).",
+   technique="SSA-to-automata extraction + SMT-based bounded model checking with symbolic schedule and symbolic monoid identity (z3)", ref="DESIGN.md §4, §5 C10", note=BMC_NOTE),
  "C11": dict(level="model_checking",
    text="Bounded model checking of Unfold and Emit with a virtual clock that is a solver variable (lax: ticks of any size at any step; urgent: time moves only when nothing else can): exact successive sequence, index/Try skipping, at most one application per elapsed tick, j-th value not before (j+1) ticks, exactly at (j+1) ticks for a consumer that keeps up, stop and close after cancel. All runs of up to K steps.",
    technique="SSA-to-automata extraction + SMT-based bounded model checking with symbolic schedule and symbolic time (z3)", ref="DESIGN.md §4.5, §5 C11", note=BMC_NOTE),
